@@ -147,7 +147,9 @@ def gen_net(rng, n_in=None, n_gates=None, n_ff=None, n_out=None, style=None, fea
             ff['q'] = f's{i}'
         else:
             r = rng.random()
-            if latch or r < 0.5:
+            if 'ff_unread' in feats and r < 0.25:
+                pass                                    # a state element nobody reads: no output line at all
+            elif latch or r < 0.5:
                 ff['q'] = f's{i}'
             elif r < 0.75:
                 ff['q'], ff['qn'] = f's{i}', f's{i}n'
@@ -231,7 +233,7 @@ def gen_net(rng, n_in=None, n_gates=None, n_ff=None, n_out=None, style=None, fea
     net['io_order'] = ports
     if 'wiring' in feats:
         for s in sigs:
-            net['wiring'][s] = rng.choice(['fork', 'fork', 'direct', 'chain', 'branch'] if style == 'v' else ['fork', 'fork', 'chain', 'branch'])
+            net['wiring'][s] = rng.choice(['fork', 'fork', 'direct', 'chain', 'chain_rev', 'branch'] if style == 'v' else ['fork', 'fork', 'chain', 'branch'])
     return net
 
 
@@ -350,6 +352,20 @@ def build(net):
             continue
         if mode == 'direct' and len(rds) == 1 and sig in drivers:
             mkline(drivers[sig], rds[0], sig)
+            continue
+        if mode == 'chain_rev' and rds:
+            # fork-to-fork chain whose downstream fork (and its branch lines) is created before the stem fork and stem line
+            f2 = Node(c, sig + '~c')
+            k = len(rds) // 2
+            for (n, p) in rds[k:]:
+                mkline(f2, (n, p), sig)
+            f = Node(c, sig)
+            forks[sig] = f
+            mkline(f, f2, sig)
+            for (n, p) in rds[:k]:
+                mkline(f, (n, p), sig)
+            if sig in drivers:
+                mkline(drivers[sig], f, sig)
             continue
         f = Node(c, sig)
         forks[sig] = f
